@@ -97,7 +97,8 @@ def pyvalue(v, dt):
     """python value that polars hands out (`series[i]`) for JSON cell `v` of a column with explicit dtype `dt`
     (frame key "dtypes": {column: name}).  JSON forms: Date 'YYYY-MM-DD', Datetime ISO, Time 'HH:MM:SS[.ffffff]',
     Decimal:<scale> a decimal string, Float32 a float (rounded to binary32 here), integer types ints, Boolean bools,
-    Categorical / String strings."""
+    Categorical / String strings; "Null" (polars' untyped all-null column: every cell None) and "Object" (python
+    values as they are: str / int / float / bool / None side by side) — see harness/datashapes.py."""
     if v is None:
         return None
     if dt == "Date":
